@@ -90,6 +90,10 @@ theorem avoid_of_eq_ok {x : Except Err α} {a : α} (h : x = .ok a) : Avoid E x 
 
 end AvoidLemmas
 
+theorem avoid_iff {α : Type} {E : Err → Prop} {x : Except Err α} : Avoid E x ↔ ∀ e, x = .error e → ¬ E e := Iff.rfl
+
+attribute [irreducible] Avoid
+
 theorem subSc_cv : SubSc (fun e => e = .constraintViolation) := fun _ h => Or.inl h
 theorem subSc_miss : SubSc (fun e => e = .parameterMissing ∨ e = .exprVarMissing) := fun _ h => Or.inr h
 
